@@ -106,9 +106,9 @@ KEEPNAMES = [
 ]
 # params that are caches of public queries are observed through the query (full observation)
 RAW_EXCL = ("area",)
-MUTS = ("P", "D", "D2", "G", "H", "Q", "S", "L")
+MUTS = ("P", "D", "D2", "G", "H", "Q", "S", "L", "W", "CC", "F")
 # objects whose derived quantities (volumes, masses) an operation changes by assignment
-FOOT = {"D": ("C",), "D2": ("C2", "C3"), "H": ("B",), "L": ("B2",)}
+FOOT = {"D": ("C",), "D2": ("C2", "C3"), "H": ("B",), "L": ("C4",), "W": ("C2", "DU")}
 DERIVED_INPUTS = {"temperatureInC", "numberDensities", "height"} | {"od", "id", "op", "ip", "mult"}
 
 
@@ -134,6 +134,8 @@ def _kind(o_or_cls):
 def _spec(name):
     if name == "r2":  # two assemblies (one of each design) x two blocks, pin grid
         return build.hex_spec(rings=2, pins=True, cells=build.third_core_cells(2)[:2])
+    if name == "cq":  # quarter Cartesian core, axes between the cells: the core grid has a non-zero offset
+        return build.cart_spec(n=2, quarter=True, through_center=False)
     if name == "r2s":
         return build.hex_spec(rings=2, pins=True, sfp_contents={(0, 0): "IC"})
     if name == "r3s":
@@ -171,8 +173,16 @@ class State:
             "B2": A[1],  # inside A, outside B (plenum block, has linked dimensions)
             "C2": B.getComponentByName("clad"),  # inside B, outside C
             "C3": K[1][0].getComponentByName("fuel"),  # outside A
+            "DU": B.getComponentByName("duct"),
         }
+        for c in A[1]:  # a component with a linked dimension (hex: gap of the plenum block, Cartesian: clad)
+            if any(_islink(getattr(c.p, "_p_" + dn, None)) for dn in c.DIMENSION_NAMES):
+                self.o["C4"] = c
+                break
         self.tainted = False
+        self.frozen = False  # makeParametersReadOnly has been called
+        self.inc = False  # raw assignments have left caches stale at the current scope level
+
         self.trace = []  # scope events since the outermost open scope was entered
         self.stack = []  # dicts: name, keep, ret, snap, csnap, inner
         self.counts = {}
@@ -180,6 +190,12 @@ class State:
     def n(self, op):
         self.counts[op] = self.counts.get(op, 0) + 1
         return self.counts[op]
+
+
+def _islink(v):
+    from armi.reactor.components import Component
+
+    return isinstance(v, tuple) and len(v) == 2 and isinstance(v[0], Component)
 
 
 def keepdefs(s, obj, ki):
@@ -256,6 +272,10 @@ def _rawnode(o, serials):
     d["serial"] = int(sn) if isinstance(sn, (int, np.integer)) else "<%s>" % type(sn).__name__
     serials.append(d)
     d["loc"] = observe._loc(o)
+    try:
+        d["xyz"] = np.asarray(o.spatialLocator.getGlobalCoordinates(), dtype=float).tolist()
+    except Exception as e:
+        d["xyz"] = "<raises %s>" % type(e).__name__
     d["grid"] = observe._grid(o)
     d["params"] = _fastparams(o)
     d["children"] = [_rawnode(c, serials) for c in o]
@@ -341,6 +361,50 @@ def expected_subtree(snap, pre, ki):
 # mutation operations (their semantics are not under test; they produce fresh values)
 
 
+def _take_xyz(dst, src):
+    """Coordinates depend on the grids of the ancestors too: where those changed, no expectation."""
+    out = dict(dst)
+    out["xyz"] = src.get("xyz")
+    out["children"] = [_take_xyz(a, b) for a, b in zip(dst["children"], src["children"])]
+    return out
+
+
+def _grid_snap(obj):
+    """Grids are shared objects (a Cartesian block's spatialGrid *is* the core grid): a scope backs
+    up and restores every grid object held beneath it, whoever else holds it."""
+    out = {}
+    for x in [obj] + list(obj.iterChildren(deep=True)):
+        g = getattr(x, "spatialGrid", None)
+        if g is not None and id(g) not in out:
+            out[id(g)] = observe._grid(x)["reduce"]
+    return out
+
+
+def _apply_gsnap(o, node, gsnap):
+    """Expected observation: every holder of a grid object of the scope sees its snapshot."""
+    g = getattr(o, "spatialGrid", None)
+    out = node
+    if g is not None and id(g) in gsnap and node.get("grid") is not None:
+        out = dict(node)
+        out["grid"] = dict(node["grid"], reduce=gsnap[id(g)])
+    kids = [_apply_gsnap(c, cn, gsnap) for c, cn in zip(list(o), node["children"])]
+    if any(a is not b for a, b in zip(kids, node["children"])):
+        out = dict(out)
+        out["children"] = kids
+    return out
+
+
+def _anc_grids(root, obj):
+    out = []
+    x = obj.parent
+    while x is not None:
+        out.append(observe._grid(x))
+        if x is root:
+            break
+        x = x.parent
+    return out
+
+
 def _val(kind, ti, n, seed):
     base = 1000.0 * (ti + 1) + 10.0 * seed
     if kind == "scalar":
@@ -393,10 +457,28 @@ def mut_D2(s):
     C3.setTemperature(600.0 + 13.0 * n + s.seed)
 
 
+def _chpitch(g, d):
+    """changePitch of a hex or Cartesian grid by an increment."""
+    from armi.reactor import grids
+
+    if isinstance(g, grids.HexGrid):
+        g.changePitch(g.pitch + d)
+    else:
+        xw, yw = g.pitch
+        g.changePitch(float(xw) + d, float(yw) + 0.5 * d)
+
+
 def mut_G(s):
+    """Every public mutator of the arrays a grid back-up refers to: pitch (unit steps, and for an
+    offset Cartesian grid the offset), the offset setter; bounds are H's business."""
     n = s.n("G")
-    s.o["K"].spatialGrid.changePitch(16.75 + 1.25 * n + 0.01 * s.seed)
-    s.o["B"].spatialGrid.changePitch(1.0 + 0.0625 * n + 0.001 * s.seed)
+    g = s.o["K"].spatialGrid
+    _chpitch(g, 1.25 + 0.125 * n + 0.01 * s.seed)
+    if n % 2 == 0:
+        g.offset = np.array(g.offset) + np.array([0.5 * n, 0.25 * n, 0.0])
+    pg = s.o["B"].spatialGrid
+    if pg is not None:
+        _chpitch(pg, 0.0625 + 0.001 * n + 0.001 * s.seed)
 
 
 def mut_H(s):
@@ -429,11 +511,41 @@ def mut_S(s):
 
 def mut_L(s):
     n = s.n("L")
-    gap = s.o["B2"].getComponentByName("gap")
-    gap.setDimension("od", 0.5 + 0.01 * n + 0.001 * s.seed)
+    c = s.o["C4"]
+    for dn in c.DIMENSION_NAMES:
+        if _islink(getattr(c.p, "_p_" + dn, None)) or s.counts.get("L:" + c.name) == dn:
+            s.counts["L:" + c.name] = dn  # the same dimension every time
+            c.setDimension(dn, 0.5 + 0.01 * n + 0.001 * s.seed)
+            return
+    raise RuntimeError("no linked dimension to replace")
 
 
-MUTF = {"P": mut_P, "D": mut_D, "D2": mut_D2, "G": mut_G, "H": mut_H, "Q": mut_Q, "S": mut_S, "L": mut_L}
+def mut_W(s):
+    """Raw dimension assignments (no cache is invalidated by them)."""
+    n = s.n("W")
+    s.o["C2"].p.od = 1.09 + 0.002 * n + 0.0001 * s.seed
+    du = s.o["DU"]
+    dn = "op" if "op" in du.DIMENSION_NAMES else "widthOuter"
+    du.p[dn] = du.p[dn] - 0.01 * n
+
+
+def mut_CC(s):
+    s.n("CC")
+    s.r.clearCache()
+    for c in s.r.iterChildren(deep=True):
+        m = getattr(c, "material", None)
+        if m is not None:
+            m.clearCache()
+
+
+def mut_F(s):
+    from armi.reactor.reactorParameters import makeParametersReadOnly
+
+    s.n("F")
+    makeParametersReadOnly(s.r)
+
+
+MUTF = {"P": mut_P, "D": mut_D, "D2": mut_D2, "G": mut_G, "H": mut_H, "Q": mut_Q, "S": mut_S, "L": mut_L, "W": mut_W, "CC": mut_CC, "F": mut_F}
 
 # ---------------------------------------------------------------------------------------------
 # violation keys from observation differences
@@ -460,7 +572,7 @@ def _walk(a, b, path, cls, out):
     for fam in ("cls", "type", "name", "flags"):
         if a.get(fam) != b.get(fam):
             out.append(("id", fam, path, a.get(fam), b.get(fam)))
-    for fam in ("serial", "loc", "grid", "mat", "links"):
+    for fam in ("serial", "loc", "grid", "xyz", "mat", "links"):
         if observe.diff(a.get(fam), b.get(fam)):
             out.append((fam, fam, path, a.get(fam), b.get(fam)))
     pa, pb = a.get("params", {}), b.get("params", {})
@@ -497,6 +609,42 @@ def apply(s, op, check, viols, case):
     def bad(key, msg):
         viols.append(core.viol("c16/" + key, "history %s: %s" % (case["hist"], msg), case))
 
+    if s.frozen or name == "F":
+        # after the freeze NO value may change, whatever is called; an exception is a refusal
+        pre = raw(s.r) if check else None
+        exc = None
+        try:
+            if name == "enter":
+                oname, ki = s.init["enters"][op[1]]
+                what = "enter(%s)" % oname
+                s.o[oname].retainState(keepdefs(s, s.o[oname], ki)).__enter__()  # refused: no frame
+            elif name == "exit":
+                fr = s.stack.pop()
+                s.trace = s.trace + [["X"]] if s.stack else []
+                what = "exit of the scope on %s opened before the freeze" % fr["name"]
+                fr["ret"].__exit__(None, None, None)
+            else:
+                what = "operation " + name
+                MUTF[name](s)
+        except Exception as e:
+            exc = type(e).__name__
+        if name == "F":
+            s.frozen = True
+            if exc:
+                if check:
+                    bad("freeze-raises-" + exc, "makeParametersReadOnly raises " + exc)
+                return "raised:" + exc
+        if check:
+            for d in rawdiff(pre, raw(s.r))[:2]:
+                opn = "retainState" if name in ("enter", "exit") else name
+                nm = "freeze" if name == "F" else "frozen-%s-%s" % (opn, "raises-but" if exc else "returns-and")
+                what_changed = "param-dimension" if d[0] == "links" else ("param-" + _pkind(node_at(pre, d[2])["cls"], d[1]) if d[0] == "param" else d[0])
+                bad(
+                    "%s-value-changed-%s" % (nm, what_changed),
+                    "%s %s, and %s %s at %s changed: %s -> %s" % (what, "raises " + exc if exc else "returns normally", d[0], d[1], d[2], _short(d[3]), _short(d[4])),
+                )
+        return "refused:" + exc if exc else "ok"
+
     if name == "enter":
         oname, ki = s.init["enters"][op[1]]
         obj = s.o[oname]
@@ -515,7 +663,9 @@ def apply(s, op, check, viols, case):
             fr["inner"] = True
             fr["inner_paths"].append(opath)
         s.trace.append(["E", op[1]])
-        s.stack.append({"i": op[1], "name": oname, "ki": ki, "ret": ret, "snap": snap, "csnap": csnap, "inner": False, "inner_paths": [], "path": opath})
+        s.stack.append(
+            {"i": op[1], "name": oname, "ki": ki, "ret": ret, "snap": snap, "csnap": csnap, "inner": False, "inner_paths": [], "path": opath, "inc": s.inc, "anc": _anc_grids(s.r, obj), "gsnap": _grid_snap(obj)}
+        )
         if check:
             for d in rawdiff(pre, raw(s.r))[:3]:
                 bad("enter-changes-" + d[0], "enter(%s, keep %d) changed %s %s at %s: %s -> %s" % (oname, ki, d[0], d[1], d[2], _short(d[3]), _short(d[4])))
@@ -545,9 +695,17 @@ def apply(s, op, check, viols, case):
                     "exit of scope on %s (keep-set %d) raises %r; the scope is left half restored" % (fr["name"], fr["ki"], e),
                 )
             return "raised:" + type(e).__name__
+        s.inc = fr["inc"]  # the state of the enclosing level is back, stale caches included
         if check:
             post = raw(s.r)
+            if _anc_grids(s.r, obj) != fr["anc"]:
+                exp_sub = _take_xyz(exp_sub, node_at(post, fr["path"]))
             exp = replaced(pre, fr["path"], exp_sub)
+            exp2 = _apply_gsnap(s.r, exp, fr["gsnap"])
+            if exp2 is not exp and rawdiff(exp, exp2):
+                # a grid object of the scope is also held outside it and comes back: the coordinates of
+                # the outside objects follow it, no separate expectation
+                exp = _take_xyz(exp2, post)
             seen = set()
             for fam, det, path, want, got in rawdiff(exp, post):
                 inside = path[: len(fr["path"])] == fr["path"]
@@ -573,7 +731,8 @@ def apply(s, op, check, viols, case):
                 )
             cd = observe.diff(fr["csnap"], cacheobs(obj))
             if cd:
-                bad("exit-cache-leak" + ("-after-inner-scope" if fr["inner"] else ""), "cached dictionaries under %s differ from those at enter: %s" % (fr["name"], cd[:3]))
+                own = all(x.startswith("/m/") for x in cd)  # only the material of the scope object itself
+                bad("exit-cache-leak" + ("-own-material" if own else ("-after-inner-scope" if fr["inner"] else "")), "cached dictionaries under %s differ from those at enter: %s" % (fr["name"], cd[:3]))
         return "ok"
 
     f = MUTF[name]
@@ -591,6 +750,10 @@ def apply(s, op, check, viols, case):
         if check:
             bad("mutation-%s-raises-%s" % (name, type(e).__name__), "operation %s raises %r in a state produced by enter/exit" % (name, e))
         return "raised:" + type(e).__name__
+    if name == "W":
+        s.inc = True
+    elif name == "CC":
+        s.inc = False
     return "ok"
 
 
@@ -605,7 +768,8 @@ def enabled_ops(s, hist):
     ops = []
     muts = init["muts"]
     for m in muts[_por_start(init, hist) :]:
-        ops.append([m])
+        if not (m == "F" and s.frozen):
+            ops.append([m])
     openi = {fr["i"] for fr in s.stack}
     if len(s.stack) < min(MAXNEST, init.get("maxnest", MAXNEST)):
         for i in range(len(init["enters"])):
@@ -630,7 +794,9 @@ def _valobs(o):
 
 
 def _strip(d):
-    out = {k: v for k, v in d.items() if k in ("cls", "grid", "params", "mat", "links")}
+    out = {k: v for k, v in d.items() if k in ("cls", "params", "mat", "links")}  # not xyz: a copy is detached
+    g = d.get("grid")
+    out["grid"] = None if g is None else {"cls": g.get("cls"), "reduce": g.get("reduce")}  # ownership is C01's business
     out["children"] = [_strip(c) for c in d["children"]]
     return out
 
@@ -664,7 +830,7 @@ def _perturb(x, salt):
         return
     if isinstance(x, blocks.Block):
         if x.spatialGrid is not None:
-            x.spatialGrid.changePitch(1.5 + salt)
+            _chpitch(x.spatialGrid, 0.5 + salt)
         x.setHeight(x.getHeight() + 1.0 + salt)
         _perturb(list(x)[0], salt)
         return
@@ -672,7 +838,7 @@ def _perturb(x, salt):
         _perturb(x[0], salt)
         return
     if k == "K":
-        x.spatialGrid.changePitch(x.spatialGrid.pitch + 1.0 + salt)
+        _chpitch(x.spatialGrid, 1.0 + salt)
         _perturb(x[0], salt)
         return
     if k == "R":
@@ -767,6 +933,8 @@ def expand(item):
         "raw": observe.digest(_norank(rw)),
         "serialorder": observe.digest(_serialorder(rw)),
         "tainted": s.tainted,
+        "frozen": s.frozen,
+        "inc": [s.inc] + [fr["inc"] for fr in s.stack],
         # back-up slots are hidden state: while a scope is open, states reached through different
         # enter/exit sequences inside it are kept apart (their futures differ if a slot is clobbered)
         "trace": s.trace,
@@ -785,11 +953,13 @@ def expand(item):
     after_exit = bool(hist) and hist[-1][0] == "exit"
     # derived quantities are observed where the oracles use them: with all scopes closed (these are
     # the states that merge with untouched ones: differential oracle) and right after an exit
-    if not viols and out == "ok" and (not s.stack or after_exit):
+    live = not s.frozen and out == "ok"  # a frozen reactor cannot be queried or perturbed any more
+    skip = s.tainted or s.inc
+    if not viols and live and (not s.stack or after_exit):
         f1 = full(s.r)
         _LAST["full"] = f1
-        fl = None if s.tainted else observe.digest(f1)
-        if not s.tainted and after_exit and "__raises__" not in f1:
+        fl = None if skip else observe.digest(f1)
+        if not skip and after_exit and "__raises__" not in f1:
             s.r.clearCache()
             for c in s.r.iterChildren(deep=True):
                 m = getattr(c, "material", None)
@@ -800,7 +970,7 @@ def expand(item):
             if d:
                 fl = None  # one mechanism, one key: no differential report on top of this
                 viols.append(core.viol("c16/exit-stale-cache", "history %s: after the exit, clearing every cache changes observable quantities (a stale value survived the scope): %s" % (hist, d[:3]), case))
-    if not viols and out == "ok":
+    if not viols and live:
         # the root state is copied in a pass of its own (run()): a copy defect present in every
         # state must not stop the search at depth 0
         if hist or item.get("rootcopies"):
@@ -996,67 +1166,80 @@ def ro_eval(case):
 
 
 def _quick_family():
-    """(enters, muts) of the quick tier: every keep-set pair occurs, every mutation operation occurs."""
+    """(spec, enters, muts) of the quick tier: every keep-set pair, every operation, both core
+    geometries (hex third core; Cartesian quarter core whose grid has a non-zero offset)."""
+    H, Cq = "r2", "cq"
     out = []
     pairs = [("R", "R"), ("R", "K"), ("K", "A"), ("A", "B"), ("B", "C"), ("C", "C"), ("B", "R"), ("R", "C"), ("B", "B")]
     keeps = [(0, 0), (1, 2), (2, 1), (0, 1), (2, 0), (1, 1), (2, 2), (0, 2), (1, 0)]
-    for (a, c), (ka, kc) in zip(pairs, keeps):
-        out.append(([[a, ka], [c, kc]], ["P", "D"]))
-    # grids/heights/caches do not depend on the keep-set (except height, kept in set 2)
-    for a, c, ka, kc in (("R", "K", 0, 0), ("K", "A", 0, 2), ("A", "B", 2, 0), ("B", "B", 0, 0)):
-        out.append(([[a, ka], [c, kc]], ["G", "H", "Q"]))
-    out.append(([["B", 0], ["C", 0]], ["D", "D2", "Q"]))
-    out.append(([["A", 2], ["B", 2]], ["S", "L"]))
-    out.append(([["R", 1], ["B", 0]], ["L", "Q"]))
+    for j, ((a, c), (ka, kc)) in enumerate(zip(pairs, keeps)):
+        out.append((H, [[a, ka], [c, kc]], ["P", "D"] if j in (0, 1, 3, 4, 7) else ["P"]))
+    # grids (pitch, offset, axial bounds) and caches; they do not depend on the keep-set (height is in set 2)
+    out.append((Cq, [["R", 0], ["K", 0]], ["G", "H", "Q"]))
+    out.append((Cq, [["K", 0], ["A", 2]], ["G", "H", "Q"]))
+    out.append((H, [["A", 2], ["B", 0]], ["G", "H", "Q"]))
+    out.append((H, [["B", 0], ["B", 0]], ["G", "H", "Q"]))
+    out.append((H, [["B", 0], ["C", 0]], ["D", "D2", "Q"]))
+    out.append((H, [["A", 2], ["B", 2]], ["S", "L"]))
+    out.append((Cq, [["R", 1], ["B", 0]], ["L", "Q"]))
+    # cold and warm caches, raw dimension assignment followed by queries inside the scope
+    out.append((H, [["B", 0], ["C", 0]], ["W", "CC", "Q"]))
+    # scopes open when the reactor is frozen, exited (and entered) afterwards
+    out.append((H, [["B", 1], ["C4", 0]], ["P", "F"]))
     return out
 
 
-# scenarios of the quick family explored two levels deeper / one level deeper in the thorough tier
-_DEEPEST = (0, 1, 3, 9, 13, 14)
+# scenarios of the quick family explored two levels deeper in the thorough tier (the others one level)
+_DEEPEST = (0, 1, 3, 9, 13, 14, 16, 17)
 
 
 def scenarios(ctx):
-    """Each scenario is the ``init`` of one BFS: scope objects with keep-sets + mutation ops."""
+    """Each scenario is the ``init`` of one BFS: core, scope objects with keep-sets, mutation ops."""
     b = BOUNDS[ctx.tier]
-    base = {"spec": "r2", "seed": ctx.seed, "heavy": b["heavy"]}
     out = []
     have = {}
 
-    def sc(enters, muts, depth):
-        k = repr((enters, muts))
+    def sc(spec, enters, muts, depth):
+        k = repr((spec, enters, muts))
         if k in have:  # keep the deeper bound
             have[k]["depth"] = max(have[k]["depth"], depth)
             return
-        d = dict(base)
-        d.update(enters=enters, muts=muts, depth=depth)
+        d = {"spec": spec, "seed": ctx.seed, "heavy": b["heavy"], "enters": enters, "muts": muts, "depth": depth}
         have[k] = d
         out.append(d)
 
     qf = _quick_family()
     if ctx.quick:
-        for enters, muts in qf:
-            sc(enters, muts, b["depth"])
+        for spec, enters, muts in qf:
+            sc(spec, enters, muts, b["depth"])
         return out
-    for j, (enters, muts) in enumerate(qf):
-        sc(enters, muts, b["depth"] if j in _DEEPEST else b["depth"] - 1)
+    for j, (spec, enters, muts) in enumerate(qf):
+        sc(spec, enters, muts, b["depth"] if j in _DEEPEST else b["depth"] - 1)
     wide = b["wide_depth"]
     pairs = [("R", "R"), ("R", "K"), ("K", "A"), ("A", "B"), ("B", "C"), ("C", "C"), ("B", "R"), ("R", "C"), ("B", "B"), ("A", "K")]
     for a, c in pairs:
         for ka in range(3):
             for kc in range(3):
-                sc([[a, ka], [c, kc]], ["P", "D"], wide)
-    for a, c in pairs:
-        for ka, kc in ((0, 0), (2, 2)):
-            sc([[a, ka], [c, kc]], ["G", "H", "Q"], wide)
+                sc("r2", [[a, ka], [c, kc]], ["P", "D"], wide)
+    for spec in ("r2", "cq"):
+        for a, c in pairs:
+            for ka, kc in ((0, 0), (2, 2)) if spec == "r2" else ((0, 0),):
+                sc(spec, [[a, ka], [c, kc]], ["G", "H", "Q"], wide)
     for a, c in (("B", "C"), ("A", "B"), ("R", "C"), ("C", "C2")):
         for ka, kc in ((0, 0), (1, 0)):
-            sc([[a, ka], [c, kc]], ["D", "D2", "Q"], wide)
+            sc("r2", [[a, ka], [c, kc]], ["D", "D2", "Q"], wide)
+    for spec in ("r2", "cq"):
+        for a, c in (("B", "C"), ("A", "B"), ("R", "C")):
+            sc(spec, [[a, 0], [c, 0]], ["W", "CC", "Q"], wide)
+        for a, c in (("R", "B"), ("B", "C4"), ("K", "C4"), ("A", "C")):
+            sc(spec, [[a, 1], [c, 0]], ["P", "F"], wide)
+            sc(spec, [[a, 0], [c, 2]], ["D", "G", "F"], wide)
     for tri in (("R", "A", "B"), ("K", "B", "C"), ("B", "B", "B"), ("C", "B", "R")):
         for ks in ((0, 0, 0), (1, 2, 0)):
-            sc([[o, k] for o, k in zip(tri, ks)], ["P", "G"], wide)
+            sc("r2", [[o, k] for o, k in zip(tri, ks)], ["P", "G"], wide)
     for ka, kc in ((2, 2), (0, 2), (2, 0), (1, 1)):
-        sc([["A", ka], ["B", kc]], ["S", "L"], wide)
-        sc([["R", ka], ["B", kc]], ["L", "Q"], wide)
+        sc("r2", [["A", ka], ["B", kc]], ["S", "L"], wide)
+        sc("cq" if ka == kc else "r2", [["R", ka], ["B", kc]], ["L", "Q"], wide)
     return out
 
 
@@ -1079,7 +1262,10 @@ def run(ctx):
         st = explore.bfs(ctx, MOD, group, depth=depth)
         explore.merge_stats(total, st)
     explore.finish(ctx, total)
-    roots = [{"init": sc, "hist": [], "outs": [], "rootcopies": True} for sc in scs[:1]]  # all scenarios share the root
+    firsts = {}
+    for sc in scs:
+        firsts.setdefault(sc["spec"], sc)  # scenarios of one core share the root state
+    roots = [{"init": sc, "hist": [], "outs": [], "rootcopies": True} for sc in firsts.values()]
     for r in core.pmap(MOD, "expand", roots):
         ctx.add_violations(r["viols"])
         ctx.count("root_states_copied")
@@ -1088,7 +1274,7 @@ def run(ctx):
     ctx.coverage["depths"] = {str(k): len(v) for k, v in sorted(by_depth.items())}
     ctx.coverage["scenarios"] = len(scs)
     ctx.coverage["copies_per_violation_free_state"] = {"history length <= %d" % b["heavy"]: 10, "longer": 6}
-    ctx.coverage["scenario_list"] = [{"enters": s["enters"], "muts": s["muts"]} for s in scs]
+    ctx.coverage["scenario_list"] = [{"core": s["spec"], "enters": s["enters"], "muts": s["muts"]} for s in scs]
     for s in total.get("searches", []):
         for k, v in s["ops"].items():
             ctx.count("op_" + k, v)
